@@ -223,7 +223,7 @@ func (t *tailWriter) Write(p []byte) (int, error) {
 }
 
 func runWorker[C any](r *Run, ws *workerSpec, mode Mode, gen func(*Ctx) C, eval func(C, *Rec)) {
-	enc := json.NewEncoder(os.Stdout)
+	enc := json.NewEncoder(Out)
 	var encMu sync.Mutex
 	emit := func(lf Leaf[C]) bool {
 		if lf.Seq%int64(ws.n) != int64(ws.i) || lf.Seq < ws.start {
